@@ -176,7 +176,7 @@ fn families(thorough: bool) -> Vec<(String, String)> {
             format!("macro big({}) -> inc p0 <-\nstart:\nbig({})\n", ps.join(","), args.join(","))
         });
         // every macro use builds a parser of its own (about 7 ms): linear, but the sizes are kept small
-        add("macro uses", format!("macro m(a) -> inc a dec a <-\nstart:\n{}", rep("m(ax)\n", n.min(if thorough { 3000 } else { 300 }))));
+        add("macro uses", format!("macro m(a) -> inc a dec a <-\nstart:\n{}", rep("m(ax)\n", n.min(if thorough { 1000 } else { 300 }))));
         add("data definitions", format!("{}start:\nhlt\n", rep("db 1\n", n.min(60_000))));
         add("set directives", format!("{}start:\nhlt\n", rep("set 5\ndb [3]\n", n.min(50_000))));
         add("long identifier", format!("start:\njmp {}\n{}:\n", rep("a", n), rep("a", n)));
